@@ -1,0 +1,74 @@
+//go:build verif
+// +build verif
+
+package cluster
+
+import (
+	"encoding/json"
+	"fmt"
+
+	ctypes "github.com/ovrclk/akash/provider/cluster/types"
+	atypes "github.com/ovrclk/akash/types"
+	mtypes "github.com/ovrclk/akash/x/market/types"
+)
+
+// This file exists only in builds with the "verif" tag. It lets an external
+// verification harness (a) serialise the inventory service's private state as
+// it is passed to veriftrace.Emit from inside the inventory loop and (b) reach
+// the inventory lookup that the Service interface does not expose.
+
+type verifUnits struct {
+	CPU       uint64 `json:"cpu"`
+	Memory    uint64 `json:"mem"`
+	Storage   uint64 `json:"sto"`
+	Endpoints int    `json:"eps"`
+	Count     uint32 `json:"count"`
+}
+
+func verifProjectUnits(u atypes.ResourceUnits, count uint32) verifUnits {
+	out := verifUnits{Endpoints: len(u.Endpoints), Count: count}
+	if u.CPU != nil {
+		out.CPU = u.CPU.Units.Value()
+	}
+	if u.Memory != nil {
+		out.Memory = u.Memory.Quantity.Value()
+	}
+	if u.Storage != nil {
+		out.Storage = u.Storage.Quantity.Value()
+	}
+	return out
+}
+
+// MarshalJSON projects a reservation: identity (pointer), order, group name,
+// allocated flag and the stored per-unit amounts.
+func (r *reservation) MarshalJSON() ([]byte, error) {
+	units := make([]verifUnits, 0)
+	name := ""
+	if r.resources != nil {
+		name = r.resources.GetName()
+		for _, res := range r.resources.GetResources() {
+			units = append(units, verifProjectUnits(res.Resources, res.Count))
+		}
+	}
+	return json.Marshal(struct {
+		Ptr       string       `json:"ptr"`
+		Order     string       `json:"order"`
+		Name      string       `json:"name"`
+		Allocated bool         `json:"alloc"`
+		Units     []verifUnits `json:"units"`
+	}{fmt.Sprintf("%p", r), r.order.String(), name, r.allocated, units})
+}
+
+// MarshalJSON projects a node: id and available / allocatable amounts.
+func (n *node) MarshalJSON() ([]byte, error) {
+	return json.Marshal(struct {
+		ID          string     `json:"id"`
+		Available   verifUnits `json:"available"`
+		Allocatable verifUnits `json:"allocatable"`
+	}{n.id, verifProjectUnits(n.availableResources, 0), verifProjectUnits(n.allocateableResources, 0)})
+}
+
+// VerifInventoryLookup performs the inventory lookup of a Service built by NewService.
+func VerifInventoryLookup(s Service, order mtypes.OrderID, resources atypes.ResourceGroup) (ctypes.Reservation, error) {
+	return s.(*service).inventory.lookup(order, resources)
+}
